@@ -412,8 +412,8 @@ func computeNextSw() {
 //
 //go:norace
 func Yield(site int32) {
-	if !active {
-		return
+	if !active || noPreempt > 0 {
+		return // no-preempt sections (probes, sync.Once bodies) do not advance the logical clock
 	}
 	steps++
 	if int(site) < len(siteHits) {
